@@ -99,6 +99,9 @@ def sortQ : List Q → List Q
 /-- Wasserstein-1 distance: integral of `|F_x − F_y|` (piecewise constant between merged support points). -/
 def w1 (px py : List (Q × Q)) : Q := w1On px py (sortQ (px.map (·.1) ++ py.map (·.1)))
 
+/-- weights actually used: the given ones, or unit weights. -/
+def unitOr (xs : List Q) (w : Option (List Q)) : List Q := w.getD (xs.map fun _ => 1)
+
 /-! ### PSNR, entropy, perplexity, throughput -/
 
 /-- the quantity whose `10·log10` is the PSNR: `range² / MSE` -/
